@@ -31,7 +31,9 @@ TRUSTED = [
 PRIMS = [("H", 1, "H"), ("X", 1, "X"), ("T", 1, "T"), ("S", 1, "S"), ("CNOT", 2, "CNOT"), ("CZ", 2, "CZ"),
          ("SWAP", 2, "SWAP"), ("Toffoli", 3, "TOFFOLI")]
 NSTD = len(PRIMS)
+_uniq = [0]
 GATE2ID = {g: i for i, (_, _, g) in enumerate(PRIMS)}
+T_ID = 2
 
 
 # ---------------------------------------------------------------------------
@@ -71,9 +73,12 @@ def _hs_key(s):
 
 def gen_hp(rng, kind="acyclic", max_depth=5, user_prims=False):
     """random op-level program.  kind: acyclic | cyclic | repeat (repeated call arguments) | arity | missing"""
-    nuser = rng.randint(1, 7)
+    big = rng.random() < 0.08  # sizes the other cases never pick: deeper chains, wider subs, more auxiliaries
+    if big:
+        max_depth = 9
+    nuser = rng.randint(6, 10) if big else rng.randint(1, 7)
     nops = NSTD + nuser
-    arity = [a for _, a, _ in PRIMS] + [rng.randint(1, 3) for _ in range(nuser)]
+    arity = [a for _, a, _ in PRIMS] + [rng.randint(1, 4 if big else 3) for _ in range(nuser)]
     # levels give a topological order: an op of level L only uses ops of lower level
     level = {o: 0 for o in range(NSTD)}
     chain = rng.random() < 0.5  # a chain of distinct levels gives deep call stacks
@@ -93,13 +98,20 @@ def gen_hp(rng, kind="acyclic", max_depth=5, user_prims=False):
     for o in sorted(range(NSTD, nops), key=lambda x: level[x]):
         usable = [x for x in range(nops) if level[x] < level[o] and (x in prims or x in subs)]
         below = [x for x in usable if x >= NSTD and level[x] == max([level[y] for y in usable if y >= NSTD] or [0])]
-        subs[o] = _gen_hsub(rng, arity[o], rng.randint(0, 2), usable + below * 3, arity, kind)
+        subs[o] = _gen_hsub(rng, arity[o], rng.randint(0, 4 if big else 2), usable + below * 3, arity, kind)
+    if kind == "acyclic" and rng.random() < 0.15:
+        # twins: two ops whose registered subs are equal as values (SubCollector tests `sub not in subs` by value)
+        cand = [(a, b) for a in range(NSTD, nops) for b in range(NSTD, nops)
+                if a != b and a in subs and b in subs and arity[a] == arity[b] and level[a] <= level[b]]
+        if cand:
+            a, b = rng.choice(cand)
+            subs[b] = subs[a]
     if user_prims:  # user ops as primitives (counters / expand only)
         for o in rng.sample(range(NSTD, nops), rng.randint(1, max(1, nuser // 2))):
             prims.add(o)
             if rng.random() < 0.5:
                 subs.pop(o, None)
-    rootn = rng.randint(1, 3)
+    rootn = rng.randint(1, 5 if big else 3)
     usable = [x for x in range(nops) if (x in prims or x in subs)]
     top = [x for x in usable if x >= NSTD and level[x] == max([level[y] for y in usable if y >= NSTD] or [0])]
     root = _gen_hsub(rng, rootn, rng.randint(0, 2), usable + top * 2, arity, kind, length=rng.randint(1, 6), prefer_user=True)
@@ -152,50 +164,129 @@ def _gen_hsub(rng, nargs, naux, usable, arity, kind, length=None, prefer_user=Fa
 # ---------------------------------------------------------------------------
 # the real pipeline
 # ---------------------------------------------------------------------------
+PATHS = ["linker", "compile_sub", "compile", "link_fn", "linker_reuse", "compile_sub_default"]
+VIA_COLLECTOR = {"compile_sub", "compile", "compile_sub_default"}
+
+
 class Real:
-    """real ops / subs for one HProgram"""
+    """real ops / subs for one HProgram.  Every choice of argument form (how a sub is registered, which container
+    carries the primitives, ...) derives from the program itself, so that a replay makes the same choices."""
 
     def __init__(self, hp: HP):
+        import random
+
         from quri_parts.qsub.lib import std
         from quri_parts.qsub.namespace import NameSpace
         from quri_parts.qsub.op import Ident, Op
 
-        ns = NameSpace("c19")
+        _uniq[0] += 1
+        ns = NameSpace(f"c19p{_uniq[0]}")
+        self.ns = ns
         self.hp = hp
+        self.frng = random.Random(repr(hp.key()))
         self.ops = [getattr(std, n) for n, _, _ in PRIMS] + [
             Op(Ident(ns, f"F{o}"), hp.arity[o]) for o in range(NSTD, hp.nops)]
         self.id_of = {op.base_id: i for i, op in enumerate(self.ops)}
+        self._subs = {}
+        self.forms = {}
 
     def sub(self, hs):
+        """the Sub of an HSub; equal HSubs give the very same Sub object (twins)"""
         from quri_parts.qsub.sub import SubBuilder
 
-        n, a, body = hs
-        b = SubBuilder(n)
-        aux = b.add_aux_qubits(a)
-        names = list(b.qubits) + list(aux)
-        for o, qs in body:
-            b.add_op(self.ops[o], tuple(names[q] for q in qs))
-        return b.build()
+        k = _hs_key(hs)
+        if k not in self._subs:
+            n, a, body = hs
+            b = SubBuilder(n)
+            aux = b.add_aux_qubits(a)
+            names = list(b.qubits) + list(aux)
+            for o, qs in body:
+                b.add_op(self.ops[o], tuple(names[q] for q in qs))
+            self._subs[k] = b.build()
+        return self._subs[k]
+
+    def container(self, items):
+        """the same items in one of the iterable forms the signatures allow (Iterable[AbstractOp])"""
+        f = self.frng.choice(["list", "tuple", "gen", "set", "dictkeys", "reversed"])
+        self.forms["prims"] = f
+        items = list(items)
+        if f == "tuple":
+            return tuple(items)
+        if f == "gen":
+            return (x for x in items)
+        if f == "set":
+            return set(items)
+        if f == "dictkeys":
+            return {x: None for x in items}.keys()
+        if f == "reversed":
+            return list(reversed(items))
+        return items
+
+    def register(self, repo, op, sub):
+        """register `sub` for `op` through one of the public registration forms; later registrations take precedence
+        (the library layers its own specific resolvers over the generic ones this way)"""
+        from quri_parts.qsub.sub import SubBuilder
+
+        r = self.frng
+        f = r.choice(["sub", "sub", "base_id", "factory", "resolver", "resolver_cond"])
+        shadow = r.random() < 0.25
+        self.forms.setdefault("register", []).append(f + ("+shadow" if shadow else ""))
+        if shadow:  # an earlier registration for the same op that must be overridden
+            b = SubBuilder(op.qubit_count)
+            b.add_op(self.ops[0], (b.qubits[0],))
+            repo.register_sub(op, b.build())
+        if f == "sub":
+            repo.register_sub(op, sub)
+        elif f == "base_id":
+            repo.register_sub(op.base_id, sub)
+        elif f == "factory":
+            repo.register_sub(op, lambda *params: sub)
+        elif f == "resolver":
+            repo.register_sub_resolver(op, lambda o, rp: sub)
+        else:
+            repo.register_sub_resolver(op, lambda o, rp: sub, lambda ident: True)
+        if shadow:  # a later conditional registration whose condition does not hold: skipped
+            repo.register_sub_resolver(op.base_id, lambda o, rp: None, lambda ident: False)
 
     def link(self, path: str):
         """returns the linked MachineSub; raises whatever the real code raises"""
         from quri_parts.qsub.codegen import CodeGenerator
         from quri_parts.qsub.compile import compile, compile_sub
-        from quri_parts.qsub.link import Linker
-        from quri_parts.qsub.resolve import SubRepository
+        from quri_parts.qsub.link import Linker, link
+        from quri_parts.qsub.op import Ident, Op
+        from quri_parts.qsub.resolve import SubRepository, default_repository
 
         hp = self.hp
-        prims = [self.ops[o] for o in hp.prims]
+        prims = self.container([self.ops[o] for o in hp.prims])
         root = self.sub(hp.root)
-        if path == "linker":
+        if path in ("linker", "link_fn", "linker_reuse"):
             cg = CodeGenerator(prims)
             table = {self.ops[o]: cg.lower(self.sub(hs)) for o, hs in hp.subs.items()}
-            return Linker(table).link(cg.lower(root))
-        repo = SubRepository()
+            if path == "linker":
+                return Linker(table).link(cg.lower(root))
+            if path == "link_fn":
+                link(cg.lower(root), table)  # the module-level function links the caller's table in place
+                return link(cg.lower(root), table)
+            lk = Linker(table)
+            for o, hs in list(hp.subs.items())[:2]:  # other entry subs first, then the root, on the same Linker
+                lk.link(cg.lower(self.sub(hs)))
+            first = lk.link(cg.lower(root))
+            if self.frng.random() < 0.5:
+                return first
+            return Linker(lk.calltable).link(cg.lower(root))
+        if path == "compile_sub_default" and any(o < NSTD for o in hp.subs):
+            path = "compile_sub"  # never register a sub for a std op in the library's own repository
+        repo = default_repository() if path == "compile_sub_default" else SubRepository()
         for o, hs in hp.subs.items():
-            repo.register_sub(self.ops[o], self.sub(hs))
+            self.register(repo, self.ops[o], self.sub(hs))
         if path == "compile_sub":
             return compile_sub(root, prims, repo)
+        if path == "compile_sub_default":
+            return compile_sub(root, prims)
+        if path == "compile":
+            entry = Op(Ident(self.ns, "ENTRY"), hp.root[0])
+            self.register(repo, entry, root)
+            return compile(entry, prims, repo, ()) if self.frng.random() < 0.5 else compile(entry, prims, repository=repo)
         raise InfraError("unknown path " + path)
 
 
@@ -255,10 +346,19 @@ def _observe(real, msub, filt, obs, peak, alias):
     def gates_of(circ):
         out = []
         for g in circ.gates:
-            if g.name not in GATE2ID:
-                raise InfraError("unexpected gate " + g.name)
-            out.append((GATE2ID[g.name], tuple(g.control_indices) + tuple(g.target_indices)))
+            # a gate outside the vocabulary is an output of the real code (op id 999), not a fault of the harness
+            out.append((GATE2ID.get(g.name, 999), tuple(g.control_indices) + tuple(g.target_indices)))
         return out
+
+    # history: one Evaluator object serves all runs on this program (its call stack is re-initialised by run(), also after
+    # a run that ended in an exception), or a fresh one per run
+    shared = Evaluator(None) if real.frng.random() < 0.5 else None
+
+    def run_with(h, sub):
+        if shared is None:
+            return Evaluator(h).run(sub)
+        shared.hooks = h
+        return shared.run(sub)
 
     saved = QPE.QubitAllocator
     QPE.QubitAllocator = Alloc
@@ -268,7 +368,7 @@ def _observe(real, msub, filt, obs, peak, alias):
         try:
             if not qp_ok:
                 raise InfraError("skip")
-            c = Evaluator(Hooks()).run(msub)
+            c = run_with(Hooks(), msub)
             obs["eval"] = ("ok", gates_of(c))
             obs["peak"] = peak["v"]
             obs["qubit_count"] = c.qubit_count
@@ -292,7 +392,7 @@ def _observe(real, msub, filt, obs, peak, alias):
         try:
             if not qp_ok:
                 raise InfraError("skip")
-            c2 = Evaluator(QURIPartsEvaluatorHooks()).run(ex)
+            c2 = run_with(QURIPartsEvaluatorHooks(), ex)
             obs["evalflat"] = ("ok", gates_of(c2))
         except InfraError as e:
             if str(e) != "skip":
@@ -305,13 +405,37 @@ def _observe(real, msub, filt, obs, peak, alias):
     except Exception as e:  # noqa: BLE001
         obs["expand"] = ("err", exc_name(e))
     try:
-        h = GateCountEvaluatorHooks([real.ops[o] for o in filt])
-        r = Evaluator(h).run(msub)
+        fops = [real.ops[o] for o in filt]
+        form = real.frng.choice(["list", "tuple", "gen", "set"])
+        h = GateCountEvaluatorHooks({"list": fops, "tuple": tuple(fops), "gen": (x for x in fops), "set": set(fops)}[form])
+        r = run_with(h, msub)
         obs["counts"] = ("ok", {real.id_of[k]: v for k, v in r.items()})
     except Exception as e:  # noqa: BLE001
         obs["counts"] = ("err", exc_name(e))
+    # the T-count entry point: documented as GateCountEvaluatorHooks restricted to std.T
     try:
-        obs["aux"] = ("ok", Evaluator(AuxQubitCountEvaluatorHooks()).run(msub))
+        from quri_parts.qsub.eval.gatecount import TGateCountEvaluatorHooks
+
+        r = run_with(TGateCountEvaluatorHooks(), msub)
+        obs["tcount"] = ("ok", {real.id_of[k]: v for k, v in r.items() if v})
+    except Exception as e:  # noqa: BLE001
+        obs["tcount"] = ("err", exc_name(e))
+    try:
+        r = run_with(GateCountEvaluatorHooks((real.ops[T_ID],)), msub)
+        obs["tcount_ref"] = ("ok", {real.id_of[k]: v for k, v in r.items() if v})
+    except Exception as e:  # noqa: BLE001
+        obs["tcount_ref"] = ("err", exc_name(e))
+    if not qp_ok:
+        # user ops as primitives: the quri-parts evaluator has no gate for them
+        try:
+            c = run_with(QURIPartsEvaluatorHooks(), msub)
+            obs["eval_userprim"] = ("ok", gates_of(c))
+        except InfraError:
+            raise
+        except Exception as e:  # noqa: BLE001
+            obs["eval_userprim"] = ("err", exc_name(e))
+    try:
+        obs["aux"] = ("ok", run_with(AuxQubitCountEvaluatorHooks(), msub))
     except Exception as e:  # noqa: BLE001
         obs["aux"] = ("err", exc_name(e))
     return obs
@@ -391,13 +515,32 @@ def property_checks(ctx: Ctx, hp: HP, obs, tag):
                             {"reported": ax[1], "allocator_peak_minus_args": obs["peak"] - n, "expanded_aux": len(obs["expand_aux"])})
         elif ax:
             ctx.witness("aux-count", "aux counter raises " + ax[1] + " on a program that evaluates", inp)
+        tc = obs.get("tcount")
+        if tc and tc[0] == "ok":
+            nt = sum(1 for o, _ in ev[1] if o == T_ID)
+            if tc[1] != ({T_ID: nt} if nt else {}):
+                ctx.witness("gate-count", "TGateCountEvaluatorHooks differs from the number of T gates of the generated circuit", inp,
+                            {"reported": tc[1], "actual": nt})
+        elif tc:
+            ctx.witness("gate-count", "T-gate counter raises " + tc[1] + " on a program that evaluates", inp)
     elif ev and ex and (ev[0] == "ok") != (ex[0] == "ok"):
         ctx.witness("eval-vs-expand", f"one of evaluation / expansion raises and the other does not: {ev[0]}/{ex}", inp)
+    up = obs.get("eval_userprim")
+    if up and ex and ex[0] == "ok":
+        # a primitive without a quri-parts gate must be rejected (ValueError), never skipped; when no such primitive is
+        # reachable the circuit is the expanded instruction list
+        if any(o >= NSTD for o, _ in ex[1]):
+            if up != ("err", "ValueError"):
+                ctx.witness("unsupported-primitive-not-rejected", "QURIPartsEvaluatorHooks meets a primitive op without a quri-parts gate "
+                            "and does not raise ValueError: " + (up[1] if up[0] == "err" else "returns a circuit"), inp)
+        elif up[0] != "ok" or py_canon(n, up[1]) != py_canon(n, ex[1]):
+            ctx.witness("eval-vs-expand", "hierarchical evaluation differs from the expanded instruction list "
+                        "(user primitives present but unreachable)", inp, {"hier": _short(up), "expanded": enc_gates(ex[1])})
 
 
 def run_batch(ctx: Ctx, hps, paths, filts):
     """compile with the model, run model and real code, diff everything"""
-    creq = [f"c19compile {1 if paths[i] == 'compile_sub' else 0} / " + hp.enc() for i, hp in enumerate(hps)]
+    creq = [f"c19compile {1 if paths[i] in VIA_COLLECTOR else 0} / " + hp.enc() for i, hp in enumerate(hps)]
     cres = ctx.driver(creq, entry=ENTRY)
     areq, idx = [], []
     for i, (hp, r) in enumerate(zip(hps, cres)):
@@ -476,6 +619,8 @@ def run_batch(ctx: Ctx, hps, paths, filts):
         else:
             if any(x != rc[1] for x in mcs):
                 ctx.disagree("gate-count", inp, rc, m_counts)
+        if obs.get("tcount") != obs.get("tcount_ref"):
+            ctx.disagree("tcount", inp, obs.get("tcount"), f"GateCountEvaluatorHooks([T]): {obs.get('tcount_ref')}")
         # theorem hypotheses vs outcome (sanity of the model-level statements on this very input)
         if m_wf == "true" and m_acyc == "true" and not (m_eval.startswith("ok") and m_exp == m_eval):
             ctx.disagree("theorem-instance", inp, "WF ∧ Acyclic", "eval/expand: " + m_eval[:100] + " / " + m_exp[:100])
@@ -542,7 +687,8 @@ def correspond(ctx: Ctx, n_cases: int):
         hp = gen_hp(rng, k, user_prims=up)
         ctx.count("kind", k + ("+userprims" if up else ""))
         hps.append(hp)
-        paths.append(rng.choice(["linker", "compile_sub"]))
+        paths.append(rng.choice(PATHS))
+        ctx.count("path", paths[-1])
         r = rng.random()
         if r < 0.4:
             filts.append([])
@@ -578,7 +724,6 @@ UNSAFE_UNDER_CTL = {"H": "controlled-H-order", "SqrtX": "controlled-sqrt-phase",
                     "SqrtY": "controlled-sqrt-phase", "SqrtYdag": "controlled-sqrt-phase"}
 PRIM1 = ["H", "X", "Y", "Z", "S", "Sdag", "T", "Tdag", "SqrtX", "SqrtXdag", "SqrtY", "SqrtYdag", "RX", "RY", "RZ", "Phase"]
 PRIM23 = ["CNOT", "CZ", "SWAP", "Toffoli"]
-_uniq = [0]
 
 
 class RealTerms:
@@ -610,7 +755,10 @@ class RealTerms:
                 names = list(b.qubits) + list(b.add_aux_qubits(naux))
                 for term, qs in ops:
                     b.add_op(self.op(term), tuple(names[q] for q in qs))
-                if ph:
+                if ph and ph % 2 == 0 and abs(ph) >= 4:
+                    b.add_phase(math.pi / 2)  # add_phase accumulates
+                    b.add_phase((ph - 2) * math.pi / 4)
+                elif ph:
                     b.add_phase(ph * math.pi / 4)
                 o = Op(Ident(self.ns, f"W{t[1]}"), nargs)
                 default_repository().register_sub(o, b.build())
@@ -690,7 +838,7 @@ def gen_term(rng, subs, depth, under_ctl, max_arity):
         ar = QD.arity(t, subs)
         pos = rng.randint(0, len(ops)) if naux == 0 else rng.choice([0, len(ops)])
         ops.insert(pos, (t, tuple(rng.sample(range(nargs), ar))))
-    subs[uid] = (nargs, naux, rng.choice([0, 0, 0, 1, 2, 4, 6, 3, 7]), ops)
+    subs[uid] = (nargs, naux, rng.choice([0, 0, 0, 1, 2, 4, 6, 3, 7, -1, -2, -4, 9, 10, 12, 16]), ops)
     return ("user", uid)
 
 
@@ -870,8 +1018,24 @@ def wrapper_validate(ctx: Ctx, n_random: int):
                 ctx.count("wrapper", "table:" + ("ok" if r is None else "skip" if r == "skip" else "MISMATCH"))
                 if r not in (None, "skip"):
                     ctx.count("wrapper_keys", report_bad(ctx, t, {}, r))
+    # 1b. Identity: Inverse(Identity) is implemented; control.py has no resolver for Controlled(Identity), the compilation is
+    #     refused with ValueError (an unsupported construction, recorded, not a violation); a wrong unitary or any other
+    #     exception would be one
+    ident = ("prim", "Identity", None)
+    for t in (("inv", ident), ("inv", ("inv", ident)), ("ctl", ident), ("ctl", ("inv", ident)), ("mctl", ident, 2, 1)):
+        r = check_term(ctx, t, {})
+        n_eval += 1
+        if r is not None and r != "skip" and t[0] != "inv" and r.startswith("raises ValueError") and "not found in calltable" in r:
+            ctx.count("wrapper", "unsupported:" + QD.show(t, {}))
+            note = "Controlled(Identity) has no resolver: compile_sub refuses it with ValueError (unsupported construction, no witness)"
+            if note not in ctx.notes:
+                ctx.notes.append(note)
+        elif r not in (None, "skip"):
+            ctx.count("wrapper_keys", report_bad(ctx, t, {}, r))
+        else:
+            ctx.count("wrapper", "identity:ok")
     # 2. tracked global phase of a sub under Controlled, and under Controlled(Inverse(.))
-    for ph in (1, 2, 4, 6, 3):
+    for ph in (1, 2, 4, 6, 3, -2, -4, 8, 10):
         subs = {0: (1, 0, ph, [(("prim", "X", None), (0,)), (("prim", "T", None), (0,))])}
         for t in (("ctl", ("user", 0)), ("ctl", ("inv", ("user", 0))), ("ctl", ("ctl", ("user", 0)))):
             r = check_term(ctx, t, subs)
@@ -930,6 +1094,8 @@ def resolver_structure(ctx: Ctx, n_cases: int):
         ns = NameSpace(f"c19r{_uniq[0]}")
         ops = [getattr(std, n) for n in names] + [Op(Ident(ns, f"G{j}"), rng.randint(1, 3), self_inverse=(rng.random() < 0.3))
                                                    for j in range(3)]
+        # ops that are not unitary (measurement-like): both generic resolvers keep them as they are, where they are
+        ops += [Op(Ident(ns, f"M{j}"), rng.randint(1, 2), unitary=False) for j in range(2)]
         ar = [o.qubit_count for o in ops]
         nargs, naux = rng.randint(1, 3), rng.randint(0, 2)
         body = []
@@ -948,7 +1114,7 @@ def resolver_structure(ctx: Ctx, n_cases: int):
         repo = default_repository()
         repo.register_sub(F, b.build())
         prog = f"{nargs} {naux} " + ";".join(f"p{o}:{','.join(map(str, qs))}" for o, qs in body)
-        selfinv = [i for i, o in enumerate(ops) if o.self_inverse]
+        selfinv = [i for i, o in enumerate(ops) if o.self_inverse or not o.unitary]
         pairs = ",".join(f"{i}-{i + 100}" for i in range(len(ops)) if i not in selfinv)
         reqs.append(f"c19inv {pairs} / {prog}")
         reqs.append(f"c19ctl 100 / {prog}")
@@ -985,6 +1151,18 @@ def resolver_structure(ctx: Ctx, n_cases: int):
         except Exception as e:  # noqa: BLE001
             real_c = "raises " + type(e).__name__
         want = resp[2 * i + 1].strip()
+        # restatement for non-unitary ops (the model's ctlSub controls every op): no control, qubits only shifted
+        wf = want.split(" ", 2)
+        if len(wf) == 3 and wf[2]:
+            insts = []
+            for part in wf[2].split(";"):
+                o, qs = part.split(":")
+                k = int(o[1:]) - 100
+                if 0 <= k < len(ops) and not ops[k].unitary:
+                    part = f"p{k}:{','.join(qs.split(',')[1:])}"
+                    ctx.count("resolver", "non-unitary-under-control")
+                insts.append(part)
+            want = f"{wf[0]} {wf[1]} " + ";".join(insts)
         if ph:
             extra = f"p{['H', 'X', 'T', 'S'].index(lad[ph]) if lad.get(ph) in ['H', 'X', 'T', 'S'] else -1}:0" if False else None
             # the phase correction op is compared by name below
@@ -1053,6 +1231,284 @@ def transpiler_validate(ctx: Ctx, n_cases: int):
             ctx.witness("qp-trans", f"transpiled compilation differs from the plain one by {d:.3g} (up to phase)", inp)
 
 
+
+
+RICH1 = ["Identity", "H", "X", "Y", "Z", "S", "Sdag", "SqrtX", "SqrtXdag", "SqrtY", "SqrtYdag", "T", "Tdag"]
+RICHP = ["RX", "RY", "RZ", "Phase"]
+RICH_GATE = {"Toffoli": "TOFFOLI", "Phase": "RZ"}
+
+
+def rich_programs(ctx: Ctx, n_cases: int):
+    """the whole std primitive vocabulary (parametric ops, Phase, Identity, ...) through every compile entry point, with and
+    without sub-transpilers; judged on the real code only: compile == compile_sub, hierarchical == expanded (up to renaming),
+    counters == circuit, transpiled == untranspiled (dense unitary up to a global phase), unsupported gates rejected"""
+    import numpy as np
+
+    import quri_parts.circuit.transpile as qt
+    from oracle import dense
+    from quri_parts.circuit import QuantumCircuit, gates
+    from quri_parts.qsub.compile import compile, compile_sub
+    from quri_parts.qsub.eval import AuxQubitCountEvaluatorHooks, GateCountEvaluatorHooks, QURIPartsEvaluatorHooks
+    from quri_parts.qsub.evaluate import Evaluator
+    from quri_parts.qsub.expand import full_expand
+    from quri_parts.qsub.lib import std
+    from quri_parts.qsub.namespace import NameSpace
+    from quri_parts.qsub.op import Ident, Op
+    from quri_parts.qsub.primitive import AllBasicSet
+    from quri_parts.qsub.qubit import Qubit
+    from quri_parts.qsub.resolve import SubRepository
+    from quri_parts.qsub.sub import SubBuilder
+    from quri_parts.qsub.trans.qp_trans import SeparateQURIPartsTranspiler, convert_from_qp, convert_to_qp
+
+    rng = ctx.rng
+    pool = [qt.CZ2CNOTHTranspiler, qt.SWAP2CNOTTranspiler, qt.H2RZSqrtXTranspiler, qt.TOFFOLI2HTTdagCNOTTranspiler,
+            qt.CNOT2CZHTranspiler, qt.T2RZTranspiler, qt.S2RZTranspiler, qt.RX2RZSqrtXTranspiler, qt.RY2RZSqrtXTranspiler,
+            qt.Sdag2RZTranspiler, qt.Tdag2RZTranspiler, qt.SqrtX2RXTranspiler, qt.SqrtY2RYTranspiler, qt.X2HZTranspiler,
+            qt.Z2HXTranspiler, qt.Identity2RZTranspiler, qt.H2RXRYTranspiler]
+
+    def leaf(maxar):
+        r = rng.random()
+        if r < 0.3:
+            name = rng.choice(RICHP)
+            ang = rng.choice([rng.uniform(-7, 7), rng.randint(-9, 9) * math.pi / 8, 0.0])
+            return getattr(std, name)(float(ang)), 1
+        if r < 0.6 or maxar < 2:
+            return getattr(std, rng.choice(RICH1)), 1
+        if r < 0.9 or maxar < 3:
+            return getattr(std, rng.choice(["CNOT", "CZ", "SWAP"])), 2
+        return std.Toffoli, 3
+
+    def gl(c):
+        return [(g.name, tuple(g.control_indices) + tuple(g.target_indices), tuple(g.params)) for g in c.gates]
+
+    def canon(n, gs):
+        seen = {}
+        out = []
+        for name, qs, ps in gs:
+            r = []
+            for q in qs:
+                if q >= n and q not in seen:
+                    seen[q] = n + len(seen)
+                r.append(q if q < n else seen[q])
+            out.append((name, tuple(r), ps))
+        return out
+
+    import math
+
+    from quri_parts.qsub.op import SimpleParamOp
+
+    def pu_body(k):
+        """body of the parametric user op PU(k) (2 arguments, 1 auxiliary): depends on the parameter"""
+        return ([(("std", "T", ()), (0,))] * (k % 3) + [(("std", "RZ", (0.25 * k,)), (1,)), (("std", "CNOT", ()), (0, 2))]
+                + ([(("std", "CNOT", ()), (1, 0))] if k % 2 else []) + [(("std", "CNOT", ()), (0, 2))])
+
+    def reference(structs, root):
+        """independent restatement: inline every call, callee argument i = i-th call qubit, callee auxiliaries = the next free
+        indices above everything live in the callers, released when the callee returns"""
+        out = []
+        peak = [root[0]]
+
+        def run(st, env, idx):
+            nargs, naux, body = st
+            loc = list(env) + list(range(idx, idx + naux))
+            idx += naux
+            peak[0] = max(peak[0], idx)
+            for ref, qs in body:
+                abs_q = tuple(loc[q] for q in qs)
+                if ref[0] == "std":
+                    out.append((RICH_GATE.get(ref[1], ref[1]), abs_q, tuple(float(x) for x in ref[2])))
+                elif ref[0] == "user":
+                    run(structs[ref[1]], abs_q, idx)
+                else:
+                    run((2, 1, pu_body(ref[1])), abs_q, idx)
+
+        run(root, tuple(range(root[0])), root[0])
+        return out, peak[0] - root[0]
+
+    for ci in range(n_cases):
+        _uniq[0] += 1
+        ns = NameSpace(f"c19x{_uniq[0]}")
+        nuser = rng.randint(1, 4)
+        uops = [Op(Ident(ns, f"U{j}"), rng.randint(1, 3)) for j in range(nuser)]
+        PU = SimpleParamOp((ns, "PU"), 2)
+        repo = SubRepository()
+        desc = []
+        structs = []
+
+        def real_of(ref):
+            if ref[0] == "std":
+                o = getattr(std, ref[1])
+                return o(*ref[2]) if ref[2] else o
+            if ref[0] == "user":
+                return uops[ref[1]]
+            return PU(ref[1])
+
+        def build_from(st):
+            nargs, naux, body = st
+            b = SubBuilder(nargs)
+            names = list(b.qubits) + list(b.add_aux_qubits(naux))
+            for ref, qs in body:
+                b.add_op(real_of(ref), tuple(names[q] for q in qs))
+            return b
+
+        def build(nargs, naux, usable, length):
+            size = nargs + naux
+            body = []
+            for _ in range(length):
+                r = rng.random()
+                if usable and r < 0.4:
+                    j = rng.choice(usable)
+                    if uops[j].qubit_count > size:
+                        continue
+                    ref, ar = ("user", j), uops[j].qubit_count
+                elif r < 0.55 and size >= 2:
+                    ref, ar = ("pu", rng.randint(0, 5)), 2
+                else:
+                    o, ar = leaf(size)
+                    ref = ("std", o.id.local_name, tuple(o.id.params))
+                body.append((ref, tuple(rng.sample(range(size), ar))))
+            st = (nargs, naux, body)
+            b = build_from(st)
+            if rng.random() < 0.2:
+                b.add_phase(rng.choice([1, 2, 4]) * math.pi / 4)
+            desc.append(f"({nargs}+{naux}: " + "; ".join(f"{r[1]}{list(r[2]) if r[0] == 'std' and r[2] else ''}@{list(q)}"
+                                                         if r[0] != "pu" else f"PU<{r[1]}>@{list(q)}" for r, q in body) + ")")
+            return st, b.build()
+
+        for j, o in enumerate(uops):
+            st, sb = build(o.qubit_count, rng.randint(0, 1), list(range(j)), rng.randint(1, 4))
+            structs.append(st)
+            repo.register_sub(o, sb)
+        # the parametric user op: one registration for the whole family, the sub depends on the parameter
+        pu_form = rng.choice(["factory", "resolver"])
+        if pu_form == "factory":
+            repo.register_sub(PU, lambda k: build_from((2, 1, pu_body(k))).build())
+        else:
+            repo.register_sub_resolver(PU, lambda o, rp: build_from((2, 1, pu_body(o.id.params[0]))).build())
+        nroot = rng.randint(1, 3)
+        root_st, root = build(nroot, rng.randint(0, 1), list(range(nuser)), rng.randint(1, 5))
+        entry = Op(Ident(ns, "ENTRY"), nroot)
+        repo.register_sub(entry, root)
+        pform = rng.choice(["as-is", "list", "reversed", "gen"])
+
+        class _P:  # a fresh iterable per use (a generator is consumed by the call it is passed to)
+            def __iter__(self):
+                return iter({"as-is": AllBasicSet, "list": list(AllBasicSet), "reversed": tuple(reversed(AllBasicSet)),
+                             "gen": (x for x in AllBasicSet)}[pform])
+        prims = _P() if pform == "gen" else {"as-is": AllBasicSet, "list": list(AllBasicSet), "reversed": tuple(reversed(AllBasicSet))}[pform]
+        inp = {"subs U0..": desc[:-1], "root": desc[-1], "PU<k>": "T@[0] x (k%3); RZ(0.25k)@[1]; CNOT@[0,aux]; CNOT@[1,0] if k odd; CNOT@[0,aux]"}
+        ctx.traces += 1
+        try:
+            ms1 = compile_sub(root, prims, repo)
+            ms2 = compile(entry, prims, repo)
+            g1 = gl(Evaluator(QURIPartsEvaluatorHooks()).run(ms1))
+            g2 = gl(Evaluator(QURIPartsEvaluatorHooks()).run(ms2))
+            fe = full_expand(ms1)
+            gf = gl(Evaluator(QURIPartsEvaluatorHooks()).run(fe))
+            cnt = Evaluator(GateCountEvaluatorHooks()).run(ms2)
+            aux = Evaluator(AuxQubitCountEvaluatorHooks()).run(ms2)
+        except InfraError:
+            raise
+        except Exception as e:  # noqa: BLE001
+            ctx.witness("rich-program-raises", f"a well-formed acyclic program over the std primitives raises {type(e).__name__}: {str(e)[:100]}", inp)
+            continue
+        ref, ref_peak = reference(structs, root_st)
+        if canon(nroot, g1) != canon(nroot, ref):
+            ctx.witness("eval-vs-reference", "hierarchical evaluation differs from the reference inlining of the program "
+                        "(std vocabulary, parametric user op)", inp, {"real": str(g1)[:400], "reference": str(ref)[:400]})
+        ctx.case(("rich", tuple(desc)), True, None)
+        if g1 != g2:
+            ctx.witness("compile-vs-compile_sub", "compile(entry_op) and compile_sub(entry_sub) evaluate to different circuits", inp,
+                        {"compile_sub": str(g1)[:300], "compile": str(g2)[:300]})
+        if canon(nroot, g1) != canon(nroot, gf):
+            ctx.witness("eval-vs-expand", "hierarchical evaluation differs from evaluation of the fully expanded form (std vocabulary "
+                        "with parametric ops)", inp, {"hier": str(g1)[:300], "flat": str(gf)[:300]})
+        want = {}
+        for name, _, _ in g1:
+            want[name] = want.get(name, 0) + 1
+        got = {}
+        for k, v in cnt.items():
+            nm = RICH_GATE.get(k[1], k[1])
+            got[nm] = got.get(nm, 0) + v
+        if {k: v for k, v in got.items() if v} != want:
+            ctx.witness("gate-count", "GateCountEvaluatorHooks differs from the number of gates of the generated circuit", inp,
+                        {"reported": got, "actual": want})
+        used = max([q for _, qs, _ in g1 for q in qs] + [nroot - 1]) + 1 - nroot
+        if aux != len(fe.aux_qubits) or aux < used or aux != ref_peak:
+            ctx.witness("aux-count", "AuxQubitCountEvaluatorHooks differs from the auxiliary usage of the generated circuit", inp,
+                        {"reported": aux, "expanded_aux": len(fe.aux_qubits), "highest_aux_index_used": used, "reference_peak": ref_peak})
+        # --- sub-transpilers, both entry points
+        trs = [t() for t in rng.sample(pool, rng.randint(1, 4))]
+        tin = dict(inp, transpilers=[type(t).__name__ for t in trs])
+        nq = max([q for _, qs, _ in g1 for q in qs] + [0]) + 1
+        for which in ("compile_sub", "compile"):
+            try:
+                st = [SeparateQURIPartsTranspiler(trs)] if rng.random() < 0.5 else (SeparateQURIPartsTranspiler(tuple(trs)),)
+                ms3 = compile_sub(root, prims, repo, st) if which == "compile_sub" else compile(entry, prims, repo, st)
+                c3 = Evaluator(QURIPartsEvaluatorHooks()).run(ms3)
+            except Exception as e:  # noqa: BLE001
+                ctx.witness("qp-trans", f"{which} with SeparateQURIPartsTranspiler raises {type(e).__name__}: {str(e)[:100]}", tin)
+                continue
+            n = max(nq, c3.qubit_count)
+            if n > 8 or not g1:
+                continue
+            c1 = QuantumCircuit(n)
+            for name, qs, ps in g1:
+                c1.add_gate(_mk_gate(gates, name, qs, ps))
+            dist = dense.phase_dist(dense.circuit_unitary(n, c3.gates), dense.circuit_unitary(n, c1.gates))
+            ctx.evaluations += 1
+            ctx.count("qp_trans", f"{which}:" + ("ok" if dist <= 1e-7 else "MISMATCH"))
+            if dist > 1e-7:
+                ctx.witness("qp-trans", f"{which} with sub-transpilers differs from the plain compilation by {dist:.3g} (up to phase)", tin)
+        # --- a circuit transpiler that emits a gate the converter has no op for: rejected, never dropped
+        if g1 and ci % 4 == 0:
+            def bad_tr(c):
+                c2 = QuantumCircuit(c.qubit_count)
+                c2.extend(c.gates)
+                c2.add_gate(gates.U1(0, 0.25))
+                return c2
+            which = rng.choice(["compile_sub", "compile"])
+            try:
+                st = [SeparateQURIPartsTranspiler([bad_tr])]
+                ms4 = compile_sub(root, prims, repo, st) if which == "compile_sub" else compile(entry, prims, repo, st)
+                c4 = gl(Evaluator(QURIPartsEvaluatorHooks()).run(ms4))
+                ctx.witness("qp-trans-unsupported-gate-not-rejected", f"{which}: a circuit transpiler emits U1 (no qsub op) and the "
+                            "compilation succeeds" + (" with the gate dropped" if len(c4) == len(g1) else ""), tin)
+            except ValueError:
+                ctx.count("qp_trans", "unsupported-gate-rejected")
+            except Exception as e:  # noqa: BLE001
+                ctx.witness("qp-trans-unsupported-gate-not-rejected", f"{which}: unsupported gate raises {type(e).__name__} instead of ValueError", tin)
+        # --- the converters alone
+        if ci % 3 == 0:
+            ops = []
+            for _ in range(rng.randint(1, 6)):
+                o, ar = leaf(3)
+                base = rng.choice([0, 0, 3])
+                ops.append((o, tuple(Qubit(base + q) for q in rng.sample(range(4), ar)), ()))
+            cin = {"ops": [f"{o.id.local_name}{list(o.id.params)}@{[q.uid for q in qs]}" for o, qs, _ in ops]}
+            try:
+                circ = convert_to_qp(ops if rng.random() < 0.5 else tuple(ops))
+                wantg = [(RICH_GATE.get(o.id.local_name, o.id.local_name), tuple(q.uid for q in qs), tuple(o.id.params)) for o, qs, _ in ops]
+                back = convert_from_qp(circ)
+                wantb = [((std.RZ(o.id.params[0]) if o.base_id == std.Phase.base_id else o), tuple(qs), ()) for o, qs, _ in ops]
+                if gl(circ) != wantg or circ.qubit_count != 1 + max(q.uid for _, qs, _ in ops for q in qs):
+                    ctx.witness("qp-trans-convert", "convert_to_qp does not produce the ops' gates on the ops' qubits", cin, {"got": str(gl(circ))[:300]})
+                elif [(o, tuple(qs), tuple(rs)) for o, qs, rs in back] != wantb:
+                    ctx.witness("qp-trans-convert", "convert_from_qp(convert_to_qp(ops)) differs from ops (Phase as RZ)", cin)
+            except Exception as e:  # noqa: BLE001
+                ctx.witness("qp-trans-convert", f"converting supported ops raises {type(e).__name__}: {str(e)[:100]}", cin)
+            try:
+                convert_to_qp(ops + [(uops[0], tuple(Qubit(i) for i in range(uops[0].qubit_count)), ())])
+                ctx.witness("qp-trans-unsupported-gate-not-rejected", "convert_to_qp accepts an op without a quri-parts gate", cin)
+            except ValueError:
+                pass
+            except Exception as e:  # noqa: BLE001
+                ctx.witness("qp-trans-unsupported-gate-not-rejected", f"convert_to_qp on an unsupported op raises {type(e).__name__}", cin)
+
+
+def _mk_gate(gates, name, qs, ps):
+    f = getattr(gates, name)
+    return f(*qs, *ps)
 
 
 def register_expand_check(ctx: Ctx, n_cases: int):
@@ -1140,6 +1596,491 @@ def register_expand_check(ctx: Ctx, n_cases: int):
         ctx.case(("regs", reqs[2 * i + 1]), True, None)
 
 
+# ---------------------------------------------------------------------------
+# one-level expansion, unlinked programs, evaluator / allocator API (judged by direct restatements, no model)
+# ---------------------------------------------------------------------------
+def inline_spec(ms, ex):
+    """`ex` is `ms` with every top-level call replaced by the callee's instructions: callee arguments become the call-site
+    qubits, callee auxiliaries become names that no local of `ms` has (they may be shared between different inlined calls),
+    everything else is unchanged up to one consistent injective renaming of the locals of `ms` (arguments by position).
+    Returns None or a description of the first difference."""
+    from quri_parts.qsub.machineinst import is_primitive, is_subcall
+
+    rho, fresh = {}, set()
+
+    def bind(m, a, b):
+        if a in m:
+            return m[a] == b
+        if b in m.values():
+            return False
+        m[a] = b
+        return True
+
+    if len(ex.qubits) != len(ms.qubits):
+        return "argument count changed"
+    for a, b in zip(ms.qubits, ex.qubits):
+        if not bind(rho, a, b):
+            return "arguments are not renamed injectively"
+    out = list(ex.instructions)
+    pos = 0
+    for mop, qs, rs in ms.instructions:
+        if is_subcall(mop):
+            callee = mop.sub
+            if callee is None:
+                return "unlinked"
+            args = {a: q for a, q in zip(callee.qubits, qs)}
+            mu = {}
+            for cm, cqs, crs in callee.instructions:
+                if pos >= len(out):
+                    return "instructions missing"
+                em, eqs, ers = out[pos]
+                pos += 1
+                if type(em) is not type(cm) or em.op != cm.op or len(eqs) != len(cqs):
+                    return f"instruction {pos - 1}: {em.op.id.local_name} where the callee has {cm.op.id.local_name}"
+                if is_subcall(cm) and em.sub is not cm.sub:
+                    return f"instruction {pos - 1}: the inlined call has another callee"
+                for x, y in zip(cqs, eqs):
+                    if x in args:
+                        if not bind(rho, args[x], y):
+                            return f"instruction {pos - 1}: callee argument is not the call-site qubit"
+                    elif not bind(mu, x, y):
+                        return f"instruction {pos - 1}: callee auxiliaries are not renamed injectively"
+            fresh |= set(mu.values())
+        else:
+            if pos >= len(out):
+                return "instructions missing"
+            em, eqs, ers = out[pos]
+            pos += 1
+            if not is_primitive(em) or em.op != mop.op or len(eqs) != len(qs):
+                return f"instruction {pos - 1}: primitive changed"
+            for x, y in zip(qs, eqs):
+                if not bind(rho, x, y):
+                    return f"instruction {pos - 1}: qubits of a primitive changed"
+    if pos != len(out):
+        return "extra instructions"
+    live = set(rho.values()) | set(ex.qubits)
+    if fresh & live:
+        return f"an inlined auxiliary coincides with a qubit of the caller: {sorted(q.uid for q in fresh & live)}"
+    aux = list(ex.aux_qubits)
+    if len(set(aux)) != len(aux) or set(aux) & set(ex.qubits):
+        return "aux_qubits of the result repeat a name or contain an argument"
+    need = fresh | {rho[a] for a in ms.aux_qubits if a in rho}
+    if not need <= set(aux):
+        return "an auxiliary used by the result is not listed in its aux_qubits"
+    return None
+
+
+def _weak(n, gates):
+    """what every correct partial inlining preserves of the generated circuit: the op sequence and the argument
+    positions (auxiliaries may be shared differently, cf. inline_spec)"""
+    return [(o, tuple(q if q < n else -1 for q in qs)) for o, qs in gates]
+
+
+def expand_levels_check(ctx: Ctx, n_cases: int, fixed=None):
+    """`expand(sub)` / `expand(sub, recursive=False)` (one level), iterated to the fixed point, against `full_expand`;
+    the partially expanded programs are themselves programs: the property is checked on them too"""
+    from quri_parts.qsub.eval import AuxQubitCountEvaluatorHooks, GateCountEvaluatorHooks, QURIPartsEvaluatorHooks
+    from quri_parts.qsub.evaluate import Evaluator
+    from quri_parts.qsub.expand import expand, full_expand
+    from quri_parts.qsub.machineinst import is_subcall
+
+    rng = ctx.rng
+    done = 0
+
+    def cands():
+        if fixed is not None:
+            yield from fixed
+            return
+        for _ in range(n_cases * 3):
+            yield gen_hp(rng, "acyclic"), rng.choice(PATHS)
+
+    for hp, path in cands():
+        if done >= n_cases and fixed is None:
+            break
+        if any(o >= NSTD for o in hp.prims):
+            continue
+        real = Real(hp)
+        try:
+            ms = real.link(path)
+        except Exception:  # noqa: BLE001 - judged by run_batch
+            continue
+        n = hp.root[0]
+        inp = {"program": hp.to_json(), "path": path, "entry": "expand"}
+
+        def gl(c):
+            return [(GATE2ID.get(g.name, -1), tuple(g.control_indices) + tuple(g.target_indices)) for g in c.gates]
+
+        try:
+            g0 = gl(Evaluator(QURIPartsEvaluatorHooks()).run(ms))
+            c0 = dict(Evaluator(GateCountEvaluatorHooks()).run(ms))
+            fe = full_expand(ms)
+        except Exception:  # noqa: BLE001 - judged by run_batch
+            continue
+        done += 1
+        ctx.traces += 1
+        try:
+            fe2 = expand(ms, True)
+            same = (list(fe2.instructions) == list(fe.instructions) and tuple(fe2.qubits) == tuple(fe.qubits)
+                    and set(fe2.aux_qubits) == set(fe.aux_qubits))
+            if not same:
+                ctx.witness("expand-entry-points", "expand(sub, True) differs from full_expand(sub)", inp)
+            cur = ms
+            steps = 0
+            while any(is_subcall(m) for m, _, _ in cur.instructions):
+                steps += 1
+                if steps > 12:
+                    ctx.witness("expand-one-level", "iterated one-level expansion of an acyclic program does not terminate", inp)
+                    break
+                nxt = expand(cur) if steps % 2 else expand(cur, recursive=False)
+                why = inline_spec(cur, nxt)
+                if why:
+                    ctx.witness("expand-one-level", f"expand(sub) is not the one-level inlining of sub (step {steps}): {why}", inp)
+                    break
+                g1 = gl(Evaluator(QURIPartsEvaluatorHooks()).run(nxt))
+                if _weak(n, g1) != _weak(n, g0):
+                    ctx.witness("expand-one-level", f"evaluating the one-level expansion (step {steps}) gives other gates than "
+                                "evaluating the program", inp, {"program": enc_gates(g0), "expanded": enc_gates(g1)})
+                    break
+                c1 = dict(Evaluator(GateCountEvaluatorHooks()).run(nxt))
+                if {k: v for k, v in c1.items() if v} != {k: v for k, v in c0.items() if v}:
+                    ctx.witness("gate-count", f"gate counts change under one-level expansion (step {steps})", inp)
+                    break
+                # the partially expanded program as an input of its own
+                obs = observe(real, nxt, [])
+                obs["filt"] = []
+                property_checks(ctx, hp, obs, f"{path}+expand^{steps}")
+                cur = nxt
+            else:
+                flat = [(real.id_of.get(m.op.base_id, -1), tuple(q.uid for q in qs)) for m, qs, _ in cur.instructions]
+                ref = [(real.id_of.get(m.op.base_id, -1), tuple(q.uid for q in qs)) for m, qs, _ in fe.instructions]
+                if _weak(n, flat) != _weak(n, ref):
+                    ctx.witness("expand-one-level", "the fixed point of one-level expansion differs from full_expand", inp,
+                                {"fixed_point": enc_gates(flat), "full_expand": enc_gates(ref)})
+            ctx.count("expand_levels", str(steps))
+            # nothing above may have changed the program itself
+            g9 = gl(Evaluator(QURIPartsEvaluatorHooks()).run(ms))
+            if g9 != g0 or list(full_expand(ms).instructions) != list(fe.instructions):
+                ctx.witness("expand-mutates-input", "expanding a program changes what the program itself evaluates to", inp)
+        except InfraError:
+            raise
+        except Exception as e:  # noqa: BLE001
+            ctx.witness("expand-one-level", f"one-level expansion of a well-formed acyclic program raises {type(e).__name__}: {str(e)[:100]}", inp)
+        ctx.case(("expand-levels",) + hp.key() + (path,), True, None)
+
+
+def unlinked_check(ctx: Ctx, n_cases: int, fixed=None):
+    """a SubCall that was never linked must be rejected (ValueError) by every evaluator and by expansion, at the top level
+    and below a linked call; it is never skipped"""
+    from quri_parts.qsub.codegen import CodeGenerator
+    from quri_parts.qsub.eval import AuxQubitCountEvaluatorHooks, GateCountEvaluatorHooks, QURIPartsEvaluatorHooks
+    from quri_parts.qsub.evaluate import Evaluator
+    from quri_parts.qsub.expand import expand, full_expand
+    from quri_parts.qsub.machineinst import is_subcall
+
+    rng = ctx.rng
+    done = 0
+
+    def cands():
+        if fixed is not None:
+            yield from fixed
+            return
+        for _ in range(n_cases * 4):
+            yield gen_hp(rng, "acyclic"), rng.random() < 0.5
+
+    for hp, deep in cands():
+        if done >= n_cases and fixed is None:
+            break
+        if any(o >= NSTD for o in hp.prims):
+            continue
+        real = Real(hp)
+        cg = CodeGenerator([real.ops[o] for o in hp.prims])
+        top = cg.lower(real.sub(hp.root))
+        calls = [m for m, _, _ in top.instructions if is_subcall(m)]
+        if not calls:
+            continue
+        reach_unlinked = True
+        if deep:
+            # link the top-level calls only: the unlinked call (if any) sits one level down
+            for m in calls:
+                oid = real.id_of[m.op.base_id]
+                if oid not in hp.subs:
+                    break
+                m.sub = cg.lower(real.sub(hp.subs[oid]))
+            else:
+                reach_unlinked = any(is_subcall(x) for m in calls for x, _, _ in m.sub.instructions)
+            if any(m.sub is None for m in calls):
+                reach_unlinked = True
+        if not reach_unlinked:
+            continue
+        done += 1
+        ctx.traces += 1
+        inp = {"program": hp.to_json(), "entry": "unlinked", "linked_levels": 1 if deep else 0}
+        runs = {"Evaluator/QURIParts": lambda: Evaluator(QURIPartsEvaluatorHooks()).run(top),
+                "Evaluator/GateCount": lambda: Evaluator(GateCountEvaluatorHooks()).run(top),
+                "Evaluator/AuxQubitCount": lambda: Evaluator(AuxQubitCountEvaluatorHooks()).run(top),
+                "full_expand": lambda: full_expand(top)}
+        if not deep:
+            runs["expand"] = lambda: expand(top)
+        for name, f in runs.items():
+            try:
+                f()
+                got = "returns a result"
+            except ValueError:
+                continue
+            except Exception as e:  # noqa: BLE001
+                got = "raises " + type(e).__name__
+            ctx.witness("unlinked-not-rejected", f"{name} on a program with an unlinked SubCall {got} instead of raising ValueError", inp)
+        ctx.case(("unlinked",) + hp.key() + (deep,), True, None)
+        ctx.count("unlinked", "below-a-call" if deep else "top-level")
+
+
+def evaluator_reuse_check(ctx: Ctx, n_cases: int, fixed=None):
+    """history on one Evaluator object: a run that ended in MachineSubRecursionError, then runs on subs of the same linked
+    program (some of them were on the call stack when the error was raised): `run` starts every evaluation afresh, so
+    the results are those of a new Evaluator"""
+    from quri_parts.qsub.eval import AuxQubitCountEvaluatorHooks, GateCountEvaluatorHooks, QURIPartsEvaluatorHooks
+    from quri_parts.qsub.evaluate import Evaluator
+    from quri_parts.qsub.machineinst import is_subcall
+
+    rng = ctx.rng
+
+    def outcome(f):
+        try:
+            r = f()
+        except Exception as e:  # noqa: BLE001
+            return ("err", exc_name(e))
+        if isinstance(r, dict):
+            return ("ok", sorted((k[1], v) for k, v in r.items() if v))
+        if isinstance(r, int):
+            return ("ok", r)
+        return ("ok", [(g.name, tuple(g.control_indices) + tuple(g.target_indices)) for g in r.gates])
+
+    done = 0
+
+    def cands():
+        if fixed is not None:
+            yield from fixed
+            return
+        for _ in range(n_cases * 6):
+            yield gen_hp(rng, "cyclic")
+
+    for hp in cands():
+        if done >= n_cases and fixed is None:
+            break
+        if any(o >= NSTD for o in hp.prims):
+            continue
+        real = Real(hp)
+        try:
+            ms = real.link("linker")
+        except Exception:  # noqa: BLE001
+            continue
+        reach, todo = [], [ms]
+        while todo:
+            x = todo.pop()
+            for m, _, _ in x.instructions:
+                if is_subcall(m) and m.sub is not None and all(m.sub is not y for y in reach):
+                    reach.append(m.sub)
+                    todo.append(m.sub)
+        all_hooks = [QURIPartsEvaluatorHooks, GateCountEvaluatorHooks, AuxQubitCountEvaluatorHooks]
+        counted = False
+        for hooks in (all_hooks if fixed is not None else [rng.choice(all_hooks)]):
+            ev = Evaluator(hooks())
+            first = outcome(lambda: ev.run(ms))
+            if first != ("err", "recursion"):
+                continue
+            counted = True
+            for i, sub in enumerate(reach[:8]):
+                fresh = outcome(lambda: Evaluator(hooks()).run(sub))
+                ev.hooks = hooks()
+                again = outcome(lambda: ev.run(sub))
+                if fresh != again:
+                    ctx.witness("evaluator-reuse", f"an Evaluator({hooks.__name__}) that has raised MachineSubRecursionError evaluates "
+                                f"sub-routine #{i} of the same program differently from a new Evaluator",
+                                {"program": hp.to_json(), "path": "linker", "entry": "evaluator-reuse"},
+                                {"new": str(fresh)[:200], "reused": str(again)[:200]})
+                    break
+        if not counted:
+            continue
+        done += 1
+        ctx.traces += 1
+        ctx.case(("reuse",) + hp.key(), True, None)
+
+
+def allocator_check(ctx: Ctx, n_cases: int):
+    """allocate.py against its restatement: a stack of consecutive indices starting at init_count"""
+    from quri_parts.qsub.allocate import QubitAllocator, RegisterAllocator
+    from quri_parts.qsub.qubit import Qubit
+    from quri_parts.qsub.register import Register
+
+    rng = ctx.rng
+    for ci in range(n_cases):
+        cls, bit = rng.choice([(QubitAllocator, Qubit), (RegisterAllocator, Register)])
+        init = rng.choice([None, 0, 1, 3, 7])
+        hist = []
+        try:
+            al = cls() if init is None else (cls(init) if rng.random() < 0.5 else cls(init_count=init))
+            idx = init or 0
+            stack = []
+            bad = None
+            for _ in range(rng.randint(1, 12)):
+                r = rng.random()
+                if r < 0.35:
+                    k = rng.randint(0, 3)
+                    got = list(al.allocate(k))
+                    hist.append(f"allocate({k})")
+                    if got != [bit(i) for i in range(idx, idx + k)]:
+                        bad = f"allocate({k}) at index {idx} returned {[b.uid for b in got]}"
+                    idx += k
+                    stack.append(k)
+                elif r < 0.6:
+                    k = rng.randint(0, 3)
+                    keys = [bit(100 + j) for j in range(k)]
+                    keys = tuple(keys) if rng.random() < 0.5 else keys
+                    got = dict(al.allocate_map(keys))
+                    hist.append(f"allocate_map({k} bits)")
+                    if got != {bit(100 + j): bit(idx + j) for j in range(k)}:
+                        bad = f"allocate_map at index {idx} returned {[(a.uid, b.uid) for a, b in got.items()]}"
+                    idx += k
+                    stack.append(k)
+                elif r < 0.8 and stack:
+                    k = stack.pop()
+                    al.free_last(k)
+                    hist.append(f"free_last({k})")
+                    idx -= k
+                elif r < 0.9:
+                    hist.append("free(...)")
+                    try:
+                        al.free([bit(max(idx - 1, 0))])
+                        bad = "free() of an arbitrary bit does not raise ValueError"
+                    except ValueError:
+                        pass
+                probe = rng.randint(0, idx + 2)
+                if al.total() != idx:
+                    bad = f"total() = {al.total()}, {idx} bits are allocated"
+                elif bool(al.in_use(bit(probe))) != (probe < idx):
+                    bad = f"in_use({probe}) = {al.in_use(bit(probe))} with {idx} bits allocated"
+                if bad:
+                    break
+        except Exception as e:  # noqa: BLE001
+            bad = f"raises {type(e).__name__}: {str(e)[:80]}"
+        ctx.traces += 1
+        if bad:
+            ctx.witness("allocator", f"{cls.__name__}: {bad}", {"init_count": init, "history": hist})
+        ctx.case(("alloc", cls.__name__, init, tuple(hist)), True, None)
+
+
+def api_probes(ctx: Ctx):
+    """documented error branches and argument validation of the anchored files: each must reject, none may mis-handle"""
+    from quri_parts.qsub.codegen import CodeGenerator
+    from quri_parts.qsub.compile import compile, compile_sub
+    from quri_parts.qsub.eval import AuxQubitCountEvaluatorHooks, GateCountEvaluatorHooks, QURIPartsEvaluatorHooks
+    from quri_parts.qsub.evaluate import Evaluator
+    from quri_parts.qsub.lib import std
+    from quri_parts.qsub.machineinst import MachineOp, MachineSub, Primitive
+    from quri_parts.qsub.namespace import NameSpace
+    from quri_parts.qsub.op import Ident, Op, ParameterValidationError
+    from quri_parts.qsub.primitive import AllBasicSet
+    from quri_parts.qsub.qubit import Qubit
+    from quri_parts.qsub.resolve import SubRepository
+    from quri_parts.qsub.sub import SubBuilder
+
+    _uniq[0] += 1
+    ns = NameSpace(f"c19a{_uniq[0]}")
+
+    def expect(key, what, f, exc, inp):
+        ctx.traces += 1
+        ctx.count("probe", key)
+        try:
+            r = f()
+            got = "returns " + repr(r)[:80]
+        except exc:
+            return True
+        except Exception as e:  # noqa: BLE001
+            got = f"raises {type(e).__name__}: {str(e)[:80]}"
+        en = exc.__name__ if isinstance(exc, type) else "/".join(x.__name__ for x in exc)
+        ctx.witness(key, f"{what}: {got} instead of raising {en}", inp)
+        return False
+
+    q0 = Qubit(0)
+    # hooks used before any sub was entered
+    expect("evaluator-hooks-uninitialised", "QURIPartsEvaluatorHooks.primitive before enter_sub",
+           lambda: QURIPartsEvaluatorHooks().primitive(Primitive(std.H), (q0,), (), [0]), ValueError, {"call": "primitive"})
+    expect("evaluator-hooks-uninitialised", "QURIPartsEvaluatorHooks.exit_sub before enter_sub",
+           lambda: QURIPartsEvaluatorHooks().exit_sub(MachineSub((q0,), (), (), (), ()), True, [0]), ValueError, {"call": "exit_sub"})
+    # an instruction that is neither a Primitive nor a SubCall
+    odd = MachineSub((q0,), (), (), (), ((Primitive(std.H), (q0,), ()), (MachineOp(std.X), (q0,), ())))
+    for name, mk in (("QURIParts", QURIPartsEvaluatorHooks), ("GateCount", GateCountEvaluatorHooks), ("AuxQubitCount", AuxQubitCountEvaluatorHooks)):
+        expect("unsupported-machineop-not-rejected", f"Evaluator({name}) on an instruction that is neither Primitive nor SubCall",
+               lambda mk=mk: Evaluator(mk()).run(odd), ValueError, {"instructions": "Primitive(H); MachineOp(X)"})
+    # a primitive op the quri-parts evaluator has no gate for (a wrapper op handed over as a primitive)
+    for name, op in (("Controlled(H)", std.Controlled(std.H)), ("Inverse(T)", std.Inverse(std.T)), ("MultiControlled(X,2,3)", std.MultiControlled(std.X, 2, 3))):
+        b = SubBuilder(op.qubit_count)
+        b.add_op(std.H, (b.qubits[0],))
+        b.add_op(op, b.qubits)
+        sub = b.build()
+        expect("unsupported-primitive-not-rejected", f"QURIPartsEvaluatorHooks on the primitive {name}",
+               lambda sub=sub, op=op: Evaluator(QURIPartsEvaluatorHooks()).run(compile_sub(sub, list(AllBasicSet) + [op], SubRepository())),
+               ValueError, {"primitive": name})
+    # wrapper parameter validation
+    nonu = Op(Ident(ns, "Meas"), 1, 0, unitary=False)
+    for name, f in (("Inverse(non-unitary op)", lambda: std.Inverse(nonu)), ("Controlled(non-unitary op)", lambda: std.Controlled(nonu)),
+                    ("MultiControlled(non-unitary op, 1, 0)", lambda: std.MultiControlled(nonu, 1, 0)),
+                    ("MultiControlled(X, 0, 0)", lambda: std.MultiControlled(std.X, 0, 0)),
+                    ("MultiControlled(X, -1, 0)", lambda: std.MultiControlled(std.X, -1, 0)),
+                    ("MultiControlled(X, 2, 4)", lambda: std.MultiControlled(std.X, 2, 4)),
+                    ("MultiControlled(X, 1, 2)", lambda: std.MultiControlled(std.X, 1, 2)),
+                    ("MultiControlled(X, 3, 8)", lambda: std.MultiControlled(std.X, 3, 8)),
+                    ("MultiControlled(X, 2, -1)", lambda: std.MultiControlled(std.X, 2, -1))):
+        expect("invalid-wrapper-params-accepted", name, f, ParameterValidationError, {"op": name})
+    for bits in (1, 2, 3):
+        for val in (0, (1 << bits) - 1):
+            try:
+                o = std.MultiControlled(std.X, bits, val)
+                ok = o.qubit_count == bits + 1 and std.Controlled(std.T).qubit_count == 2 and std.Inverse(std.CNOT).qubit_count == 2
+                got = f"qubit_count {o.qubit_count}"
+            except Exception as e:  # noqa: BLE001
+                ok, got = False, f"raises {type(e).__name__}"
+            if not ok:
+                ctx.witness("valid-wrapper-params-rejected", f"MultiControlled(X, {bits}, {val}): {got}", {"bits": bits, "value": val})
+    # a wrapper whose target cannot be resolved cannot be compiled: ValueError from the linker, not a silently dropped op
+    G = Op(Ident(ns, "G"), 1)
+    N = Op(Ident(ns, "N"), 1)
+    for name, mkop, reg_none in (("Inverse(G), G primitive without a sub", lambda: std.Inverse(G), False),
+                                 ("Controlled(G), G primitive without a sub", lambda: std.Controlled(G), False),
+                                 ("Inverse(N), N's resolver returns None", lambda: std.Inverse(N), True),
+                                 ("Controlled(N), N's resolver returns None", lambda: std.Controlled(N), True)):
+        def go(mkop=mkop, reg_none=reg_none):
+            from quri_parts.qsub.resolve import default_repository
+
+            if reg_none:
+                default_repository().register_sub_resolver(N, lambda o, rp: None)
+            op = mkop()
+            b = SubBuilder(op.qubit_count)
+            b.add_op(std.H, (b.qubits[0],))
+            b.add_op(op, b.qubits)
+            return Evaluator(GateCountEvaluatorHooks()).run(compile_sub(b.build(), list(AllBasicSet) + [G, N]))
+        expect("unresolved-wrapper-not-rejected", name, go, ValueError, {"op": name})
+    # compile(): an entry op without a sub
+    expect("unresolved-entry-not-rejected", "compile(entry_op) for an op without a sub",
+           lambda: compile(Op(Ident(ns, "NoSub"), 1), AllBasicSet, SubRepository()), Exception, {"op": "NoSub"})
+    # Inverse of a self-inverse op is the op itself, also for a user op that is a primitive
+    Sx = Op(Ident(ns, "SelfInv"), 2, self_inverse=True)
+    try:
+        b = SubBuilder(2)
+        b.add_op(std.Inverse(Sx), (b.qubits[1], b.qubits[0]))
+        b.add_op(std.Inverse(std.Inverse(std.T)), (b.qubits[0],))
+        ms = compile_sub(b.build(), list(AllBasicSet) + [Sx])
+        cnt = {k[1]: v for k, v in Evaluator(GateCountEvaluatorHooks()).run(ms).items() if v}
+        from quri_parts.qsub.expand import full_expand
+
+        flat = [(m.op.id.local_name, tuple(q.uid for q in qs)) for m, qs, _ in full_expand(ms).instructions]
+        if cnt != {"SelfInv": 1, "T": 1} or flat != [("SelfInv", (1, 0)), ("T", (0,))]:
+            ctx.witness("inverse-self-inverse", "Inverse(self-inverse primitive) on (q1, q0); Inverse(Inverse(T)) on q0", {"counts": cnt, "flat": flat})
+    except Exception as e:  # noqa: BLE001
+        ctx.witness("inverse-self-inverse", f"Inverse(self-inverse primitive) raises {type(e).__name__}: {str(e)[:80]}", {})
+    ctx.traces += 1
+
+
 def exhaustive_small(ctx: Ctx):
     """thorough tier: EVERY program of a small scope — leaf sub A (one instruction over {H, CNOT}), middle sub B (one call of A
     with any injective argument tuple), root (a call of B then a call of A, any injective argument tuples), each with
@@ -1190,7 +2131,10 @@ def run(ctx: Ctx, replay=None) -> int:
     ctx.rule = ("case = (op-level program, link path, gate-count filter); real compile/link/eval/expand/counters vs the "
                 "Lean model on the same program; distinct = distinct canonical programs whose root calls a user sub; "
                 "plus generic-resolver structure cases and oracle validation of Inverse/Controlled/MultiControlled nestings "
-                "(counted in evaluations only)")
+                "(counted in evaluations only); link path ranges over Linker / link() / reused Linker / compile_sub / compile / default "
+                "repository with varying registration and container forms; real-code-only sections judged by direct restatements: "
+                "one-level expand (inlining spec, fixed point vs full_expand), unlinked calls, allocator histories, Evaluator reuse, "
+                "error-branch probes, std-vocabulary programs with a parametric user op vs a reference inliner, sub-transpilers")
     ctx.trusted = TRUSTED
     ctx.assumptions = ["subs are built by SubBuilder (argument i is Qubit(i), auxiliary j is Qubit(nArgs+j))",
                        "the theorems need WF: call arity matches and a callee has at most as many arguments as the caller has names",
@@ -1209,16 +2153,32 @@ def run(ctx: Ctx, replay=None) -> int:
             for w in d.get("witnesses", []) + d.get("disagreements", []):
                 inp = w.get("input", {})
                 if isinstance(inp, dict) and "program" in inp and "transpilers" not in inp:
-                    run_batch(ctx, [HP.from_json(inp["program"])], [inp.get("path", "linker")], [inp.get("filter", [])])
+                    hp = HP.from_json(inp["program"])
+                    path = str(inp.get("path", "linker")).split("+")[0]
+                    path = path if path in PATHS else "linker"
+                    run_batch(ctx, [hp], [path], [inp.get("filter", [])])
+                    if inp.get("entry") == "expand" or "+expand" in str(inp.get("path", "")):
+                        expand_levels_check(ctx, 1, fixed=[(hp, path)])
+                    if inp.get("entry") == "unlinked":
+                        unlinked_check(ctx, 1, fixed=[(hp, bool(inp.get("linked_levels")))])
+                    if inp.get("entry") == "evaluator-reuse":
+                        evaluator_reuse_check(ctx, 1, fixed=[hp])
                 if isinstance(inp, dict) and "wrapper_term" in inp:
                     t, subs = _detuple(inp["wrapper_term"]), {int(k): _detuple(v) for k, v in inp["wrapper_subs"].items()}
                     r = check_term(ctx, t, subs)
                     if r not in (None, "skip"):
                         report_bad(ctx, t, subs, r)
+            api_probes(ctx)  # deterministic, cheap: replayed as a whole
         else:
             correspond(ctx, ctx.n(2500, 50000))
             resolver_structure(ctx, ctx.n(200, 1500))
             register_expand_check(ctx, ctx.n(150, 2000))
+            with ctx.timed("entry_points"):
+                api_probes(ctx)
+                expand_levels_check(ctx, ctx.n(250, 4000))
+                unlinked_check(ctx, ctx.n(120, 1500))
+                allocator_check(ctx, ctx.n(150, 2000))
+                evaluator_reuse_check(ctx, ctx.n(80, 1000))
             if not ctx.quick():
                 exhaustive_small(ctx)
     broken = broken or bool(ctx.disagreements)
@@ -1230,6 +2190,8 @@ def run(ctx: Ctx, replay=None) -> int:
         if not replay:
             wrapper_validate(ctx, ctx.n(500, 15000) * mult)
             transpiler_validate(ctx, ctx.n(60, 1000) * mult)
+            with ctx.timed("rich_programs"):
+                rich_programs(ctx, ctx.n(200, 3000) * mult)
             if broken:
                 correspond(ctx, ctx.n(500, 4000))
         ctx.search_budget_s = round(time.time() - t0, 1)
